@@ -163,6 +163,88 @@ pub fn replay(args: &[String]) {
     rep.write(&args[1]);
 }
 
+// ------------------------------------------------------------------ coordinator protocol (CkptCoord.tla)
+/// One schedule of CkptCoord.tla on real ContextRuntimes and the real CheckpointCoordinator (+ CheckpointManager on a MemoryStore).
+/// Barriers are sent by the real `initiate` into the harness-owned queues; acks of real barriers are handed to the coordinator's own
+/// ack channel in arrival order; "drain" is the real `try_complete`.  Returns the completed checkpoints as (p, c) positions and, per
+/// step, whether the coordinator reports a pending checkpoint.
+async fn run_coord_schedule(c: &J) -> J {
+    use varpulis_runtime::context::CheckpointCoordinator;
+    use varpulis_runtime::persistence::{CheckpointConfig, CheckpointManager, MemoryStore, StateStore};
+    let cap = c["cap"].as_u64().unwrap() as usize;
+    let mut w = world(cap);
+    let store: Arc<dyn StateStore> = Arc::new(MemoryStore::new());
+    let mgr = CheckpointManager::new(store.clone(), CheckpointConfig { interval: std::time::Duration::from_secs(3600), max_checkpoints: 100, checkpoint_on_shutdown: false, key_prefix: "vh".into() }).unwrap();
+    let mut coord = CheckpointCoordinator::new(mgr, vec!["c1".into(), "c2".into()]);
+    let coord_ack = coord.ack_sender();
+    let mut txs: FxHashMap<String, mpsc::Sender<ContextMessage>> = FxHashMap::default();
+    txs.insert("c1".into(), w.qp_tx.clone());
+    txs.insert("c2".into(), w.link_tx.clone());
+    let mut next = 1i64;
+    let mut ok_sched = true;
+    let mut pend = vec![];
+    let mut fence_id = 1000u64;
+    // fence: like World::fence, but acks of real barriers go to the coordinator's channel
+    macro_rules! fence { ($ctx:expr) => {{
+        fence_id += 1;
+        let tx = if $ctx == "c1" { &w.c1_in } else { &w.c2_in };
+        tx.send(ContextMessage::CheckpointBarrier(CheckpointBarrier { checkpoint_id: fence_id, timestamp_ms: 0 })).await.unwrap();
+        loop {
+            let a = tokio::time::timeout(std::time::Duration::from_secs(20), w.ack_rx.recv()).await.expect("fence timed out").unwrap();
+            if a.checkpoint_id < 1000 { if coord_ack.try_send(a).is_err() { ok_sched = false; } continue; }
+            if a.checkpoint_id == fence_id && a.context_name == $ctx { break; }
+        }
+    }}}
+    for a in c["hist"].as_array().unwrap() {
+        match a.as_str().unwrap() {
+            "ingest" => { if w.qp_tx.try_send(ContextMessage::Event(Arc::new(Event::new("A").with_field("id", next)))).is_err() { ok_sched = false; } next += 1; }
+            "initiate" => coord.initiate(&txs),
+            "drain" => { if let Err(e) = coord.try_complete() { panic!("try_complete: {e}"); } }
+            "stepP" => { match w.qp_rx.try_recv() { Ok(m) => { w.c1_in.send(m).await.unwrap(); fence!("c1"); } Err(_) => ok_sched = false } }
+            "stepC" => { match w.link_rx.try_recv() { Ok(m) => { w.c2_in.send(m).await.unwrap(); fence!("c2"); } Err(_) => ok_sched = false } }
+            x => panic!("step {x}"),
+        }
+        pend.push(coord.has_pending());
+    }
+    let mut done = vec![];
+    for id in store.list_checkpoints().unwrap() {
+        if let Ok(Some(cp)) = store.load_checkpoint(id) {
+            let p = cp.context_states.get("c1").map(|e| e.events_processed);
+            let cc = cp.context_states.get("c2").map(|e| e.events_processed);
+            done.push(json!({"p": p, "c": cc, "contexts": cp.context_states.len()}));
+        }
+    }
+    let _ = w.sd.send(true);
+    json!({"done": done, "pending": pend, "sched_ok": ok_sched})
+}
+
+/// args: cases.ndjson report.json
+pub fn coord_replay(args: &[String]) {
+    let cases = read_cases(&args[0]);
+    let mut rep = Report::new();
+    let rt = tokio::runtime::Builder::new_multi_thread().worker_threads(2).enable_all().build().unwrap();
+    for c in &cases {
+        let small = json!({"cap": c["cap"], "hist": c["hist"]});
+        let r = match catch(|| rt.block_on(run_coord_schedule(c))) { Ok(r) => r, Err(p) => { rep.case(&small, true); rep.violation(&["C27"], &format!("coordinator / context runtime panicked or a fence timed out: {p}"), &small, J::Null, J::Null); continue; } };
+        let real: Vec<(u64, u64, u64)> = r["done"].as_array().unwrap().iter().map(|d| (d["p"].as_u64().unwrap_or(u64::MAX), d["c"].as_u64().unwrap_or(u64::MAX), d["contexts"].as_u64().unwrap())).collect();
+        let model: Vec<(u64, u64, u64)> = c["done"].as_array().map(|a| a.iter().map(|d| (d["p"].as_u64().unwrap(), d["c"].as_u64().unwrap(), 2)).collect()).unwrap_or_default();
+        rep.case(&small, !model.is_empty());
+        rep.count("completed_checkpoints", real.len() as u64);
+        let conform = real == model && r["sched_ok"] == true;
+        if !conform { rep.count("model_mismatch", 1); }
+        // property level: every completed checkpoint holds every context and is a consistent cut
+        let bad: Vec<&(u64, u64, u64)> = real.iter().filter(|(p, cc, n)| *n != 2 || p != cc).collect();
+        if !bad.is_empty() {
+            // attributed to the recorded finding only when the faithful model predicts exactly these checkpoints
+            if conform { rep.known(&["C27"], "C27-barrier-injected-into-every-queue", "completed checkpoint with an event in flight that is in no snapshot"); }
+            else { rep.violation(&["C27"], "a completed coordinated checkpoint is not a consistent cut, and not one the faithful model of the coordinator predicts", &small, json!({"model_checkpoints": model}), json!({"real_checkpoints": real})); }
+        } else if !conform {
+            rep.drift(&["C27"], "completed checkpoints differ from the coordinator model but each is a consistent cut", &small);
+        }
+    }
+    rep.write(&args[1]);
+}
+
 /// args: report.json nevents — the real ContextOrchestrator under a burst, against the same program without contexts
 pub fn load(args: &[String]) {
     use varpulis_runtime::context::ContextOrchestrator;
